@@ -23,6 +23,21 @@ def core_recv(t):
     return peel(t, transparent=lc.CELL_T)
 
 
+def fresh_empty_local(ex, t):
+    """t (a term of body `ex`, in which LocalHistogram::new / LocalHistogramCore::new are expanded) is a local histogram built empty around a clone of the shared
+    histogram of the handle the method was called on: zero counters, count 0, sum 0, nothing handed over while building it."""
+    from pvrules.rules import agg_field
+    r2 = peel(t, transparent=[])
+    core_t = agg_field(r2, "core") if (isinstance(r2, tuple) and r2 and r2[0] == "agg" and r2[2].endswith("LocalHistogram::LocalHistogram")) else None
+    inner = peel(core_t[2][0], transparent=[]) if is_call(core_t, "RefCell::new") else None
+    if not (isinstance(inner, tuple) and inner and inner[0] == "agg" and inner[2].endswith("LocalHistogramCore::LocalHistogramCore")):
+        return False
+    h_, cn_, c_, s_ = (agg_field(inner, n_) for n_ in ("histogram", "counts", "count", "sum"))
+    zero_counts = is_call(cn_, ["vec::from_elem"]) and const_int(cn_[2][0]) == 0
+    same_hist = is_call(h_, "Clone::clone") and (lambda t_: isinstance(t_, tuple) and len(t_) == 3 and t_[0] == "field" and t_[2] == "histogram" and core_recv(t_[1]) == CORE)(peel(h_))
+    return bool(zero_counts and same_hist and const_int(c_) == 0 and const_int(s_) == 0 and not [c for c in ex.calls_to(["Atomic::inc_by", "AtomicU64::inc_by_with_ordering"])])
+
+
 def rule_local_histogram(ctx, f, rid):
     ctx.rule(rid, "local histogram effect summaries: flush (C03.R2 shape) then clear(); clear zeroes every element of counts, count and sum; LocalHistogram::{observe,flush,clear} "
                   "forward to the core exactly once; Clone clears the copy before returning it; Drop flushes on every path; start from zero")
@@ -91,14 +106,7 @@ def rule_local_histogram(ctx, f, rid):
             from pvrules import inline
             from pvrules.rules import agg_field
             ex = inline.expand_body(f, b, lambda pth: strip_generics(pth) in (H + "LocalHistogram::new", H + "LocalHistogramCore::new"))
-            r2 = peel(ex.term_local(0), transparent=[])
-            core_t = agg_field(r2, "core") if (isinstance(r2, tuple) and r2 and r2[0] == "agg" and r2[2].endswith("LocalHistogram::LocalHistogram")) else None
-            inner = peel(core_t[2][0], transparent=[]) if is_call(core_t, "RefCell::new") else None
-            if isinstance(inner, tuple) and inner and inner[0] == "agg" and inner[2].endswith("LocalHistogramCore::LocalHistogramCore"):
-                h_, cn_, c_, s_ = (agg_field(inner, n_) for n_ in ("histogram", "counts", "count", "sum"))
-                zero_counts = is_call(cn_, ["vec::from_elem"]) and const_int(cn_[2][0]) == 0
-                same_hist = is_call(h_, "Clone::clone") and (lambda t_: isinstance(t_, tuple) and len(t_) == 3 and t_[0] == "field" and t_[2] == "histogram" and core_recv(t_[1]) == CORE)(peel(h_))
-                ok = zero_counts and same_hist and const_int(c_) == 0 and const_int(s_) == 0 and not [c for c in ex.calls_to(["Atomic::inc_by", "AtomicU64::inc_by_with_ordering"])]
+            ok = fresh_empty_local(ex, ex.term_local(0))
         ctx.ob(rid, "LocalHistogram::clone|cleared", ok, "a cloned local histogram must be cleared before it is returned (otherwise its pending observations are flushed twice)", site=b.raw["span"]["at"])
         derived = [im for im in f.impls if im.get("trait") == "std::clone::Clone" and im["self"] == "prometheus::histogram::LocalHistogram" and im.get("exp")]
         ctx.ob(rid, "LocalHistogram::clone|not-derived", not derived, "Clone for LocalHistogram must be the hand-written clearing impl, not a derive")
